@@ -224,6 +224,9 @@ def main():
             twins.append(t)
     log('[%s/%s] %d obligations (+%d reachability twins) on %d workers' % (pid, tier, len(obs), len(twins), jobs))
     results = run_pool(twins + order, jobs)
+    if os.environ.get('VERIF_DUMP'):
+        os.makedirs(os.path.join(ROOT, '.scratch'), exist_ok=True)
+        json.dump(results, open(os.path.join(ROOT, '.scratch', pid + '-results.json'), 'w'))
 
     known = load_known(pid)
     cov = {'evaluations': 0, 'distinct_nontrivial': 0, 'obligations': len(obs), 'discharged': 0,
